@@ -95,8 +95,8 @@ P("C08", ["IDX", "SIGN", "PIN", "CPFORM", "RATIOFORM", "BFGSFORM", "OWN"],
   "floating-point error of these formulas; that the loop visits breakpoints until the first local minimiser "
   "(control structure beyond IDX); model decrease as a numerical fact",
   design="3/C08")
-P("C09", ["SIGN", "ALPHA", "FREE", "RATIOFORM", "SUBFORM", "KFACT", "SHARED", "OWN", "KFORM"],
-  "(KFORM) the four blocks of K are -D - Y'ZZ'Y/theta, L_A - R_Z, its transpose and theta S'AA'S, decided in an algebra of triangular parts; (KFACT) the LEL^T factor of K has the reference block form on its only non-trivial path, (SHARED, OWN; conservative) the kernel keeps no state between calls and does not write its inputs; The three places where the subspace step touches the box: (SIGN) truncation ratios non-negative on both "
+P("C09", ["SIGN", "ALPHA", "FREE", "RATIOFORM", "SUBFORM", "KFACT", "SHARED", "OWN", "KFORM", "KSOLVE"],
+  "(KSOLVE) the reduced system is solved as LK^-T E LK^-1 with E = diag(-I, I), with the factor of this call; (KFORM) the four blocks of K are -D - Y'ZZ'Y/theta, L_A - R_Z, its transpose and theta S'AA'S, decided in an algebra of triangular parts; (KFACT) the LEL^T factor of K has the reference block form on its only non-trivial path, (SHARED, OWN; conservative) the kernel keeps no state between calls and does not write its inputs; The three places where the subspace step touches the box: (SIGN) truncation ratios non-negative on both "
   "branches; (ALPHA) the truncation factor is min(1, nonneg) and multiplies the whole step once; (FREE) free set = "
   "strictly interior variables of the Cauchy point, active set its complement, step enters only through Z; "
   "(RATIOFORM) ratios are (bound - x_c)/dHat; (SUBFORM) reduced gradient r = g + theta(x_c - x) - W M c and step "
@@ -111,14 +111,14 @@ P("C10", ["MEM", "BFGSFORM", "OFFER", "RETRY", "MATSOWN", "BIND", "MAXLEN"],
   "offered to the memory.",
   "equality of the compact representation with dense BFGS, positive definiteness, secant equation (matrix "
   "identities in floating point)", design="3/C10")
-P("C11", ["BOX", "DOWNHILL", "LSBUD", "SIGN", "RATIOFORM", "FDB"],
-  "(FDB) the stencil of a finite-difference gradient evaluated at a trial point is bounded by the caller's box; (BOX) the three trial-point sites of line_search are projections onto [lb, ub]; (DOWNHILL) returned step is "
+P("C11", ["BOX", "DOWNHILL", "LSBUD", "SIGN", "RATIOFORM", "FDB", "LSPROTO"],
+  "(LSPROTO) the trial evaluated is the step DCSRCH asked for (bounded by the maximum feasible step it was given); (FDB) the stencil of a finite-difference gradient evaluated at a trial point is bounded by the caller's box; (BOX) the three trial-point sites of line_search are projections onto [lb, ub]; (DOWNHILL) returned step is "
   "None or strictly downhill w.r.t. the start value (a zero step can never be returned under it); (LSBUD) one "
   "evaluation per loop iteration, counter guard `< max_iter`, SciPy's DCSRCH._iterate calls no user function "
   "(checked on SciPy's source); (SIGN) the maximum step is non-negative.",
   "step in (0, stpmax] inside SciPy's DCSRCH (trusted contract)", design="3/C11")
-P("C12", ["CONST", "BIND", "ARGNAME", "DIRECTION", "OFFER", "STEPINIT", "BFGSFORM", "CPFORM", "ESC", "SF4", "NITOFF", "ORIENT", "FILTERWALK"],
-  "(FILTERWALK) with an update function installed the curvature filter visits every stored point (an identity hook must not change the run); (ORIENT) a run continued through a checkpoint restores the pairs in order; (CONST) the evaluated defaults of the line-search / curvature constants equal those of Algorithm 778 at every "
+P("C12", ["CONST", "BIND", "ARGNAME", "DIRECTION", "OFFER", "STEPINIT", "BFGSFORM", "CPFORM", "ESC", "SF4", "NITOFF", "ORIENT", "FILTERWALK", "LSPROTO"],
+  "(LSPROTO) DCSRCH is driven as in Algorithm 778: the step it returned is fed back with the value and slope evaluated at that step, FG means evaluate, anything else ends the search; (FILTERWALK) with an update function installed the curvature filter visits every stored point (an identity hook must not change the run); (ORIENT) a run continued through a checkpoint restores the pairs in order; (CONST) the evaluated defaults of the line-search / curvature constants equal those of Algorithm 778 at every "
   "sibling signature; (BIND) each constant reaches its consumer in the right slot (minimize -> line_search -> "
   "DCSRCH / dcsrch; eps_SY -> update_lbfgs_matrices / filter -> is_update_X_and_G); structural faithfulness of "
   "the iteration: (ARGNAME) no crossed argument slots at any internal call, (DIRECTION) d = subspace point - x from "
